@@ -50,14 +50,14 @@ def run(ctx):
         if e:
             uerr.append((u.name, e))
         for tid, name, boxed, h in (tv or []):
-            ops.append((f"conv 0 {tid} {name} {boxed} {h}", "model-written-tl1-value"))
+            ops.append((f"conv {int(bool(u.san))} {tid} {name} {boxed} {h}", "model-written-tl1-value"))
         rl = [f"rand12 {name} {rng.getrandbits(48)}" for tid, name, x in tops for _ in range(nrand)]
         ro = run_lines_resilient(u.gen.exe, [], rl, timeout=600)
         nr = 0
         for l, o in zip(rl, ro):
             name = l.split(" ")[1]
             if o.startswith("ok "):
-                ops.append((f"conv 0 {tid_of[name]} {name} 1 {o[3:]}", "go-random-value"))
+                ops.append((f"conv {int(bool(u.san))} {tid_of[name]} {name} 1 {o[3:]}", "go-random-value"))
                 nr += 1
             elif o != "writeerr":
                 src.stats["fillrandom_failures_left_to_C18"] += 1
